@@ -135,6 +135,7 @@ class Kernel(object):
         self.faults = []         # list of fault rules (dicts)
         self._rp_cache = {}
         self.fired = []          # (rule index, gseq)
+        self.short_next = False
         self.sched = None        # scheduler object or None
         self.monitors = []       # callables(ev, phase)
         self.op_hook = None
@@ -162,6 +163,7 @@ class Kernel(object):
         for f in self.faults:
             f['_n'] = 0
         self.fired = []
+        self.short_next = False
         self.monitors = []
         self.sched = None
         self.cur = None
@@ -341,9 +343,42 @@ class Kernel(object):
                 vol = self.volume_of_resolved(posixpath.dirname(vol) or '/')
             t = list(st)
             t[2] = 0x3000 + self.mounts.index(vol)
+            # inode numbers are per file system and small ones repeat: the root of every volume is inode 2, and what is created
+            # first on a fresh volume - the trash skeleton - gets the same numbers on every identically made volume
+            ino = self.skeleton_ino(vol, res)
+            if ino is not None:
+                t[1] = ino
             return os.stat_result(t, st.__reduce__()[1][1])
         except Exception:
             return st
+
+    @staticmethod
+    def skeleton_ino(vol, res):
+        if vol == '/':
+            return None
+        if res == vol:
+            return 2
+        parts = res[len(vol) + 1:].split('/')
+        if not parts[0].startswith('.Trash') or len(parts) > 3:
+            return None
+        base = 11
+        if parts[0] == '.Trash':
+            if len(parts) == 1:
+                return base
+            if not parts[1].isdigit():
+                return None
+            base = 20 + (int(parts[1]) % 1000) * 10
+            rest = parts[2:]
+        elif parts[0].startswith('.Trash-') and parts[0][7:].isdigit():
+            base = 10020 + (int(parts[0][7:]) % 1000) * 10
+            rest = parts[1:]
+        else:
+            return None
+        if not rest:
+            return base
+        if len(rest) == 1 and rest[0] in ('files', 'info'):
+            return base + (1 if rest[0] == 'files' else 2)
+        return None
 
     def volume_for_entry(self, vs, dir_fd=None):
         """(volume that the *directory entry* lives on, resolved path,
@@ -458,6 +493,11 @@ class Kernel(object):
                     if k != f.get('k', 0):
                         continue
                 self.fired.append((i, ev[0]))
+                if f.get('short'):
+                    # not an error: write(2) takes only a part of the buffer and says so (a file-size limit, a quota or a full
+                    # disk reached in the middle of the buffer, a signal): the caller has to go on with the rest
+                    self.short_next = True
+                    return None
                 return f['errno']
             elif kind == 'cond':
                 # persistent condition from op index `from` on
@@ -960,6 +1000,11 @@ def _fdop(name):
             return orig(fd, *a, **kw)
         ev = K.begin(name, K.cur.fds.get(fd, '<fd %d>' % fd),
                      extra={'len': len(a[0])} if name == 'write' else None)
+        if name == 'write' and getattr(K, 'short_next', False):
+            K.short_next = False
+            if len(a[0]) > 1:
+                a = (bytes(a[0])[:max(1, len(a[0]) // 2)],) + tuple(a[1:])
+                ev[5] = dict(ev[5] or {}, short=len(a[0]))
         try:
             res = orig(fd, *a, **kw)
         except OSError as e:
